@@ -51,8 +51,24 @@ pub fn run(rep: &mut Report, rng: &mut Rng, thorough: bool) {
         let kind = DATA_KINDS[(i % DATA_KINDS.len() as u64) as usize];
         let lzma2 = i % 3 == 0;
         let max_dict = if thorough { 4 << 20 } else { 1 << 20 };
-        let o = gen_lzopts(&mut r, lzma2, max_dict, true);
-        let size = gen_size(&mut r, o.dict, max);
+        let mut o = gen_lzopts(&mut r, lzma2, max_dict, true);
+        let mut size = gen_size(&mut r, o.dict, max);
+        let mut kind = kind;
+        if i % 13 == 7 {
+            // window stratum: small dictionary, a stream long enough for the encoder window to move
+            // several times, and the maximal position-bit options (contexts depend on pos mod 16)
+            o.dict = *r.pick(&[4096u32, 4096, 8192, 65536]);
+            let (lc, lp, pb) = *r.pick(&[(0u32, 4u32, 4u32), (0, 4, 0), (3, 0, 4), (0, 4, 2), (1, 3, 4), (3, 1, 3)]);
+            o.lc = lc;
+            o.lp = lp;
+            o.pb = pb;
+            o.nice = o.nice.min(64);
+            o.depth = o.depth.clamp(0, 16);
+            o.preset = None;
+            kind = *r.pick(&["text", "mixed", "code"]);
+            size = r.range(300_000, if thorough { 1_500_000 } else { 600_000 }) as usize;
+            rep.count("stratum.window-move");
+        }
         let data = gen_data(&mut r, kind, size);
         let (pstyle, parts) = gen_partition(&mut r, data.len());
         rep.count(&format!("data.{kind}"));
